@@ -182,6 +182,8 @@ var dbgSources = []string{
 	// terms evaluated more than once (host lazy functions that force an
 	// operand again): each value gets a column of its own
 	"twice(a)+-b", "thrice(a)+-b", "twice(a) + twice(b)", "thrice(xs[i])-a", "lz(c, twice(a), b) + a", "twice(twice(a))", "thrice(a+b)*b",
+	// values that render on several lines (an object whose field name contains a line break), with other values to their left
+	"a > 1 ? ml : ml", "len([ml, ml]) + a", "if(c, ml, ml).v + b", "[ml][i].v * a + b",
 	// a registered postfix operator (#: length of a list)
 	"a + xs#", "[1, a]#", "xs# + ys#", "-xs# * b",
 }
@@ -209,9 +211,10 @@ func H19_debug() {
 	og := ObjT([]string{"h"}, []*types.Type{tNum})
 	ot := ObjT([]string{"f", "g"}, []*types.Type{tNum, og})
 	ft := types.Fun("f", []*types.Type{tNum, tNum}, tNum)
+	mlt := ObjT([]string{"line\nbreak", "v"}, []*types.Type{tStr, tNum})
 	tys := map[string]*types.Type{"a": tNum, "b": tNum, "c": tBool, "d": tBool, "i": tNum, "s": tStr, "名前": tStr,
-		"xs": tLN, "ys": tLN, "m": tMSN, "o": ot, "fs": types.List(ft)}
-	names := []string{"a", "b", "c", "d", "i", "s", "名前", "xs", "ys", "m", "o", "fs"}
+		"xs": tLN, "ys": tLN, "m": tMSN, "o": ot, "fs": types.List(ft), "ml": mlt}
+	names := []string{"a", "b", "c", "d", "i", "s", "名前", "xs", "ys", "m", "o", "fs", "ml"}
 	nums := []float64{3, -12.5, 100000}
 	a, b := nums[sv.Choice("a", 3)], nums[sv.Choice("b", 3)]
 	bv := func(name string) *val.Val {
@@ -235,7 +238,9 @@ func H19_debug() {
 	m.Put(val.Str("k"), val.Num(2))
 	fs := val.List(types.List(ft).List(), 1).List()
 	fs.V[0] = val.Fun(ft, func(args ...*val.Val) *val.Val { return val.Num(args[0].Num().V - args[1].Num().V) })
-	vals := map[string]*val.Val{"a": val.Num(a), "b": val.Num(b), "c": bv("c"), "d": bv("d"), "i": val.Num(float64(sv.Choice("i", 2))),
+	mlv := val.Obj(mlt.Obj()).Obj()
+	mlv.V[0], mlv.V[1] = val.Str("x"), val.Num(9)
+	vals := map[string]*val.Val{"ml": mlv.Vl(), "a": val.Num(a), "b": val.Num(b), "c": bv("c"), "d": bv("d"), "i": val.Num(float64(sv.Choice("i", 2))),
 		"s": val.Str("héllo"), "名前": val.Str("x\ty"), "xs": mkList(1, 2), "ys": mkList(10, 20.25), "m": m.Vl(), "o": oobj.Vl(), "fs": fs.Vl()}
 	mkEnv := func() *val.Env {
 		ve := val.NewEnv()
@@ -297,7 +302,12 @@ func H19_debug() {
 		sv.Assert("first-line-is-the-source", len(lines) > 0 && lines[0] == src)
 		for _, en := range entries {
 			if en.Col >= 1 {
-				sv.Assert("every-recorded-value-is-shown", strings.Contains(text, en.V.String()))
+				// a value that renders on several lines is laid out line by line
+				shown := true
+				for _, ln := range strings.Split(en.V.String(), "\n") {
+					shown = shown && strings.Contains(text, ln)
+				}
+				sv.Assert("every-recorded-value-is-shown", shown)
 			}
 		}
 	}
